@@ -1197,3 +1197,47 @@ func (c *ctl) drainHealthy() *finding {
 	}
 	return nil
 }
+
+// describe lists where the goroutines of the pool stand (held gates), for drift notes.
+func (c *ctl) describe() string {
+	c.w.mu.Lock()
+	defer c.w.mu.Unlock()
+	var sb strings.Builder
+	for m, g := range c.wgates {
+		if g.g.held() {
+			fmt.Fprintf(&sb, "write(m%d->s%d) ", m, g.arrivals[len(g.arrivals)-1])
+		}
+	}
+	for m, g := range c.getGates {
+		if g.held() {
+			fmt.Fprintf(&sb, "getter(m%d) ", m)
+		}
+	}
+	for p, g := range c.h.openGate {
+		if g.held() {
+			fmt.Fprintf(&sb, "open(%s) ", p)
+		}
+	}
+	for sid, g := range c.cbGates {
+		if g.held() {
+			fmt.Fprintf(&sb, "closeBegin(s%d) ", sid)
+		}
+	}
+	for sid, g := range c.hookGates {
+		if g.held() {
+			fmt.Fprintf(&sb, "hook(s%d) ", sid)
+		}
+	}
+	for sid, f := range c.fakes {
+		if f.closeGate1.held() {
+			fmt.Fprintf(&sb, "close1(s%d) ", sid)
+		}
+		if f.closeGate2.held() {
+			fmt.Fprintf(&sb, "close2(s%d) ", sid)
+		}
+		if f.sendGate.entered > f.sendReturned {
+			fmt.Fprintf(&sb, "msgsend(s%d m%d) ", sid, f.sendEntered[len(f.sendEntered)-1])
+		}
+	}
+	return sb.String()
+}
